@@ -120,6 +120,7 @@ def make_spec(rng, mode=None):
     for sec in ("Version", "Well", "Curves", "Parameter"):
         for it in spec[sec]:
             fix_blank(it)
+    spec["short_default_descr"] = rng.choice([0, 0, 1, 2, 3])
     other = [fields.text(rng, colons=True) for _ in range(rng.randint(0, 3))]
     spec["Other"] = "\n".join(s for s in other if s and not s.startswith("~"))
     return spec
@@ -153,6 +154,9 @@ def build(lasio, spec):
         las.well.append(lasio.HeaderItem(m, u, v, d))
     for m, u, v, d in spec["Parameter"]:
         las.params.append(lasio.HeaderItem(m, u, v, d))
+    if spec.get("short_default_descr"):
+        for it in las.well:            # the defaults' long descriptions would otherwise dominate the 1.2 column widths
+            it.descr = it.descr[:spec["short_default_descr"] - 1]
     las.other = spec["Other"]
     las.append_curve("DEPT", np.array([100.0, 100.5, 101.0]), unit="m", descr="index")
     for j, (m, u, v, d) in enumerate(spec["Curves"]):
